@@ -206,8 +206,13 @@ func checkC11(r *mon.Run) {
 		switch api {
 		case "object":
 			e := efivarfs.NewFS()
-			if i%2 == 1 {
+			switch i % 8 {
+			case 1, 3, 5, 7:
 				e = shared
+			case 2:
+				e = efivarfs.NewFS().CheckImmutable() // probes the (non-existent) OS path, then writes as usual
+			case 4:
+				e = efivarfs.NewFS().CheckImmutable().UnsetImmutable()
 			}
 			e.SetFS(rec)
 			if p := tryP(func() { err = e.WriteVar(v, m) }); p != "" {
